@@ -40,6 +40,10 @@ impl Block {
             in_block_offset + (data.len() as u64 + PREFIX_META_SIZE as u64) <= self.limit
         );
 
+        #[cfg(feature = "verif")]
+        if crate::wal::verif::should_fail("block_write") {
+            return Err(crate::wal::verif::injected("block_write"));
+        }
         let new_meta = Metadata {
             read_size: data.len(),
             owned_by: owned_by.to_string(),
